@@ -483,7 +483,7 @@ class WorldGen:
         self.maybe(m, "apply spline", r.random() < 0.6, 0.7)
         self.maybe(m, "number of points in spline", r.choice([1, 2, 3, 5, 8, 5, 0] if r.random() < 0.2 else [1, 2, 3, 5, 8]), 0.6)
         if m.get("apply spline") is True and "max distance slab top" not in m and m.get("number of points in spline") != 8:
-            # the spline needs a finite sampling range (refused since upstream 548fef4d); a few refused ones are kept (8 points)
+            # the spline needs a finite sampling range (refused since upstream 7d5ade92); a few refused ones are kept (8 points)
             m["max distance slab top"] = 200e3
         return m
 
